@@ -222,6 +222,12 @@ def gen_uniq(ctx, idx):
     case["rank"] = "r3uniq"
     case["xu"] = [[[dy(rng, -32, 32) for _ in range(case["din"])] for _ in range(case["N"])] for _ in range(B)]
     case["pick"] = [rng.randrange(B), rng.randrange(case["N"])]
+    # crossed features: Sequential(NormalizationLayer, plain trunk), gradient tracking on the trunk input, autograd
+    # context, the way the functions are supplied
+    case["seq"] = case["din"] <= 2 and rng.random() < 0.5
+    case["xgrad"] = rng.random() < 0.4
+    case["ctx"] = "grad" if case["xgrad"] else rng.choice(["grad", "no_grad", "inference_mode"])
+    case["primary"] = rng.choice(["tensor3", "points3", "functionset", "functionset_d", "collection"])
     return case
 
 
@@ -233,6 +239,8 @@ def gen_conv(ctx, idx):
     if case["primary"] == "tensor3bad":
         case["primary"] = "tensor3"
     case["torch_seed"] = ctx.rng.randrange(10 ** 6)
+    case["copied"] = ctx.rng.random() < 0.6
+    case["seq"] = case["din"] <= 2 and ctx.rng.random() < 0.4
     case["conv_kernel"] = ctx.rng.choice([1, 3])
     case["conv_deep"] = ctx.rng.random() < 0.3
     return case
@@ -243,7 +251,7 @@ def gen_hist(ctx, idx):
     conditions (`_forward_branch`) in equal and different iteration numbers, interleaved with direct supply"""
     rng = ctx.rng
     case = gen_net(ctx, 0)
-    case.update(kind="hist", seq=False, primary="tensor3", rank="r2")
+    case.update(kind="hist", seq=case["din"] <= 2 and rng.random() < 0.4, copied=rng.random() < 0.6, primary="tensor3", rank="r2")
     B = case["B"]
     nsets = rng.choice([2, 2, 3])
     nmodels = rng.choice([1, 1, 2])
@@ -286,7 +294,8 @@ def gen_reuse(ctx, idx):
     under every autograd context; every call must equal a fresh model with the current weights on the current content"""
     rng = ctx.rng
     case = gen_net(ctx, 0)
-    case.update(kind="reuse", seq=False, primary="tensor3", rank=rng.choice(["r2", "r3x1"]))
+    case.update(kind="reuse", seq=case["din"] <= 2 and rng.random() < 0.4, copied=rng.random() < 0.6, primary="tensor3",
+                rank=rng.choice(["r2", "r3x1"]))
     B = case["B"]
     case["contents"] = [[[dy(rng, -16, 16), dy(rng, -16, 16), dy(rng, -16, 16)] for _ in range(B)] for _ in range(4)]
     sizes_t = [case["din"]] + case["trunk_hidden"] + [case["neurons"]]
@@ -783,6 +792,10 @@ def run_net(case):
             if dd > 1e-8:
                 res["problems"].append(f"fast trunk path differs from the plain network with the same weights in the {nm} "
                                        f"(max relative difference {dd:.3g})")
+        for nm_, dz in (("fast", da), ("plain", db)):
+            if maxdiff(dz[0], res["ref"]) > TOL:
+                res["problems"].append(f"{nm_} trunk, trunk input tracking gradients: the output differs from the inner product of the branch "
+                                       f"features of function i and trunk features of location j (max relative difference {maxdiff(dz[0], res['ref']):.3g})")
         # parameter gradients, judged per parameter: value vs value, None vs None, None vs (non-)zero value
         worst = 0.0
         pattern = f"requires_grad pattern trunk={case['req_trunk']} branch={case['req_branch']}"
@@ -836,47 +849,68 @@ def run_net(case):
 
 def run_uniq(case):
     e = env(); tp = e["tp"]; torch = e["torch"]; np = e["np"]
+    import contextlib
     T, U, Fo, Ti, Kp = spaces_of(case)
     res = dict(problems=[])
     plain, fs = build_net(case, False)
     B, N, d, K = case["B"], case["N"], case["d"], case["neurons"] // case["d"]
+    ctxs = dict(no_grad=torch.no_grad, inference_mode=torch.inference_mode, grad=contextlib.nullcontext)
+    what = (f"{'Sequential(NormalizationLayer, plain trunk)' if case.get('seq') else 'plain trunk'}, one location set per function, "
+            f"functions supplied as {case['primary']}, trunk input {'tracks' if case.get('xgrad') else 'does not track'} gradients, {case.get('ctx', 'grad')}")
+    x = t64(case["xu"]).requires_grad_(bool(case.get("xgrad")))
     try:
-        out = plain(tp.spaces.Points(t64(case["xu"]), T), supply(case, "tensor3", fs)).as_tensor.tolist()
+        with ctxs[case.get("ctx", "grad")]():
+            u = plain(tp.spaces.Points(x, T), supply(case, case["primary"], fs)).as_tensor
+        out = u.detach().tolist()
     except Exception as ex:
         res["plain"] = "err:" + type(ex).__name__
-        res["problems"].append(f"plain trunk with one location set per function: forward raised {type(ex).__name__}: {str(ex)[:120]}")
+        res["problems"].append(f"{what}: forward raised {type(ex).__name__}: {str(ex)[:120]}")
         return res
     res["plain"] = out
     if shape_of(out) != [B, N, d]:
-        res["problems"].append(f"output shape {shape_of(out)} for {B} functions with {N} locations each, {d} components")
+        res["problems"].append(f"{what}: output shape {shape_of(out)} for {B} functions with {N} locations each, {d} components")
         return res
     bref = ref_mlp(np, case["branch"], [sum(r, []) for r in fn_values(case)], case["bacts"]).reshape(B, d, K)
-    want = np.stack([np.einsum("ck,jck->jc", bref[i], ref_mlp(np, case["trunk"], case["xu"][i], case["tacts"]).reshape(N, d, K)) for i in range(B)])
+    want = np.stack([np.einsum("ck,jck->jc", bref[i], ref_mlp(np, case["trunk"], model_x(case, case["xu"][i]), case["tacts"]).reshape(N, d, K))
+                     for i in range(B)])
     dd = maxdiff(out, want.tolist())
     if dd > TOL:
         o = np.array(out)
         idx = np.unravel_index(np.argmax(np.abs(o - want) / np.maximum(1, np.abs(want))), want.shape)
-        res["problems"].append(f"plain trunk, one location set per function: output{list(idx)}={o[idx]} is not the inner product of the "
-                               f"branch features of function {idx[0]} and the trunk features of ITS location {idx[1]} ({want[idx]})")
+        res["problems"].append(f"{what}: output{list(idx)}={o[idx]} is not the inner product of the branch features of function {idx[0]} "
+                               f"and the trunk features of ITS location {idx[1]} ({want[idx]})")
     i, j = case["pick"]
     try:
         o1 = plain(tp.spaces.Points(t64([[case["xu"][i][j]]]), T), supply(case, "tensor3", fs, [case["params"][i]])).as_tensor.tolist()
         if shape_of(o1) != [1, 1, d] or maxdiff(o1[0][0], out[i][j]) > 1e-10:
-            res["problems"].append(f"function {i} alone at its location {j} alone gives {o1}, in the batch output[{i},{j}]={out[i][j]}")
+            res["problems"].append(f"{what}: function {i} alone at its location {j} alone gives {o1}, in the batch output[{i},{j}]={out[i][j]}")
+        if case.get("xgrad"):
+            # derivatives w.r.t. the locations of function i: the same whether the other functions are in the batch or not
+            gen = torch.Generator().manual_seed(case["A_seed"])
+            A = torch.randint(-8, 9, (B, N, d), generator=gen).double() / 8
+            g = torch.autograd.grad((A * u).sum(), x)[0][i]
+            xi = t64([case["xu"][i]]).requires_grad_(True)
+            ui = plain(tp.spaces.Points(xi, T), supply(case, "tensor3", fs, [case["params"][i]])).as_tensor
+            gi = torch.autograd.grad((A[i:i + 1] * ui).sum(), xi)[0][0]
+            if maxdiff(g.tolist(), gi.tolist()) > 1e-8:
+                res["problems"].append(f"{what}: the derivative of the outputs of function {i} w.r.t. its locations differs from the one "
+                                       f"computed for this function alone (max relative difference {maxdiff(g.tolist(), gi.tolist()):.3g})")
     except Exception as ex:
-        res["problems"].append(f"re-batched evaluation raised {type(ex).__name__}: {str(ex)[:120]}")
+        res["problems"].append(f"{what}: re-batched evaluation raised {type(ex).__name__}: {str(ex)[:120]}")
     return res
 
 
 def uniq_lines(case):
     head = f"{case['d']} {case['neurons']} {len(case['pts']) * case['fdim']} {enc(case['tacts'], str)} {enc(case['bacts'], str)} " \
            f"{enc([enc_layer(L, fbits) for L in case['trunk']], str)} {enc([enc_layer(L, fbits) for L in case['branch']], str)} " \
-           f"{enc_t23(case['xu'], fbits)} {enc(fn_values(case), fbits)}"
+           f"{enc_t23([model_x(case, xi) for xi in case['xu']], fbits)} {enc(fn_values(case), fbits)}"
     return ["fwd 0 " + head]
 
 
 def judge_uniq(rep, case, res, reply):
     rep.count(f"uniq:B={case['B']}")
+    rep.count(f"uniq:seq={int(bool(case.get('seq')))}:xgrad={int(bool(case.get('xgrad')))}:{case.get('ctx')}")
+    rep.count("uniq:primary=" + case["primary"])
     for p in res["problems"]:
         rep.fail(p, case)
     impl = res["plain"]
@@ -901,7 +935,10 @@ def run_conv(case):
     B, N, d, K = case["B"], case["N"], case["d"], case["neurons"] // case["d"]
     try:
         trunk = tp.models.FCTrunkNet(T, hidden=tuple(case["trunk_hidden"]), activations=act_modules(case["tacts"], case["tform"]),
-                                     xavier_gains=case["tgains"])
+                                     xavier_gains=case["tgains"], trunk_input_copied=case.get("copied", True))
+        if case.get("seq"):
+            box = tp.domains.Interval(T, -2, 2) if case["din"] == 1 else tp.domains.Parallelogram(T, [-2, -2], [2, -2], [-2, 2])
+            trunk = tp.models.Sequential(tp.models.NormalizationLayer(box), trunk)
         ks = case.get("conv_kernel", 1)
         conv = torch.nn.Conv1d(case["fdim"], case["fdim"], kernel_size=ks, padding=ks // 2)
         if case.get("conv_deep"):
@@ -950,7 +987,7 @@ def run_hist(case):
     d, K, N = case["d"], case["neurons"] // case["d"], case["N"]
     nets = []
     for mw in case["models"]:
-        net, fs = build_net(dict(case, trunk=mw["trunk"], branch=mw["branch"]), True)
+        net, fs = build_net(dict(case, trunk=mw["trunk"], branch=mw["branch"]), case.get("copied", True))
         nets.append(net)
 
     class Seq(tp.samplers.PointSampler):
@@ -983,7 +1020,7 @@ def run_hist(case):
 
     def ref(m, params):
         mw = case["models"][m]
-        tref = ref_mlp(np, mw["trunk"], case["x"], case["tacts"]).reshape(N, d, K)
+        tref = ref_mlp(np, mw["trunk"], model_x(case, case["x"]), case["tacts"]).reshape(N, d, K)
         bref = ref_mlp(np, mw["branch"], [sum(r, []) for r in fn_values(case, params)], case["bacts"]).reshape(len(params), d, K)
         return np.einsum("ick,jck->ijc", bref, tref)
 
@@ -1059,7 +1096,7 @@ def run_reuse(case):
     T, U, Fo, Ti, Kp = spaces_of(case)
     res = dict(problems=[], observed=[])
     d, K, N = case["d"], case["neurons"] // case["d"], case["N"]
-    net, fs = build_net(case, True)
+    net, fs = build_net(case, case.get("copied", True))
     F = formula(case["fdim"])
     kind = case["obj"]
 
@@ -1108,13 +1145,13 @@ def run_reuse(case):
 
     def set_weights(wv):
         state["wv"] = wv
-        load_weights(net.trunk, case["weights"][wv]["trunk"])
+        load_weights(net.trunk.models[-1] if case.get("seq") else net.trunk, case["weights"][wv]["trunk"])
         load_weights(net.branch, case["weights"][wv]["branch"])
 
     def ref(wv, cv):
         mw = case["weights"][wv]
         params = case["contents"][cv] if kind != "callable" else case["contents"][cv][:1]
-        tref = ref_mlp(np, mw["trunk"], case["x"], case["tacts"]).reshape(N, d, K)
+        tref = ref_mlp(np, mw["trunk"], model_x(case, case["x"]), case["tacts"]).reshape(N, d, K)
         bref = ref_mlp(np, mw["branch"], [sum(r, []) for r in fn_values(case, params)], case["bacts"]).reshape(len(params), d, K)
         return np.einsum("ick,jck->ijc", bref, tref)
 
@@ -1572,6 +1609,7 @@ def judge(rep, case, res, replies):
         judge_net(rep, case, res, replies)
     elif k == "reuse":
         rep.count(f"reuse:{case['obj']}:{case['ctx']}")
+        rep.count(f"reuse:trunk={'fast' if case.get('copied', True) else 'plain'}:seq={int(bool(case.get('seq')))}")
         for ch in case["changes"]:
             rep.count("reuse:change=" + ch)
         for p in res["problems"]:
@@ -1588,6 +1626,7 @@ def judge(rep, case, res, replies):
                 break
     elif k == "hist":
         rep.count(f"hist:models={len(case['models'])}:sets={len(case['sets'])}")
+        rep.count(f"hist:trunk={'fast' if case.get('copied', True) else 'plain'}:seq={int(bool(case.get('seq')))}")
         rep.count("hist:operations", len(case["ops"]))
         for p in res["problems"]:
             rep.fail(p, case)
@@ -1608,7 +1647,7 @@ def judge(rep, case, res, replies):
                              f"TPV.DeepONet.Hist.step predicts {last.get(op[1])}", case, txt, last.get(op[1]))
                 break
     elif k == "conv":
-        rep.count("conv-branch (oracles only)")
+        rep.count(f"conv-branch (oracles only):trunk={'fast' if case.get('copied', True) else 'plain'}:seq={int(bool(case.get('seq')))}")
         for p in res["problems"]:
             rep.fail(p, case)
     elif k == "uniq":
